@@ -160,6 +160,32 @@ def _exact_div(n, d):
     return term(t)
 
 
+def _guarded_check(s, tmo_ms):
+    """s.check() with a hard wall-clock guard: z3's own timeout is not always honoured on non-linear
+    integer problems, so a timer interrupts the context shortly after the deadline"""
+    import threading
+    fired = []
+
+    def stop():
+        fired.append(1)
+        try:
+            z3.main_ctx().interrupt()
+        except Exception:
+            pass
+    t = threading.Timer(tmo_ms / 1000.0 + 1.0, stop)
+    t.daemon = True
+    t.start()
+    try:
+        r = s.check()
+    except z3.Z3Exception:
+        r = z3.unknown
+    finally:
+        t.cancel()
+    if fired and r != z3.sat and r != z3.unsat:
+        return z3.unknown
+    return r
+
+
 def _mk_default():
     return z3.Solver()
 
@@ -476,7 +502,12 @@ class SolverCtx:
             s.add(*self.pc)
             if ex:
                 s.add(*ex)
-            r = s.check()
+            if _TRACE:
+                try:
+                    open('/verif/scratch/last_query.smt2', 'w').write(s.to_smt2())
+                except Exception:
+                    pass
+            r = _guarded_check(s, tmo)
             if r != z3.unknown:
                 self.last_solver = s
                 return r
